@@ -104,6 +104,8 @@ class RealAdapter:
     def _count(self, key):
         cc = self.it.call_counts
         cc[key] = cc.get(key, 0) + 1
+        from .seams import SIM
+        self.it.call_mut_start[key] = SIM.n_mut
 
     def build_file(self, path, fname, func, args, kwargs, cmp='METADATA',
                    spelling=None, plain=False):
@@ -185,6 +187,7 @@ class Interp:
         self.invalid = None
         self.injected_calls = []
         self.call_counts = {}             # key -> number of calls so far
+        self.call_mut_start = {}          # key -> mutating-call index at entry
         self.build_no = 0
         self.crash_end = False
         self.stragglers = {}         # owner/tag -> list of call records
@@ -592,8 +595,14 @@ class Interp:
                           jround(dict(unjson(kwargs))))
         # (the n-th call with this key: a key may be called again after a
         # call that failed in setup)
+        # files the call had already moved aside when the error struck
+        from .seams import SIM
+        start = self.call_mut_start.get(key, 0)
+        fidx = (SIM.fault_fired or {}).get('index', -1)
+        moved = [rel for (idx, knd, rel) in SIM.mut_log
+                 if start <= idx < fidx and knd in ('rename', 'replace')]
         self.injected_calls.append((key, type(e),
-                                    self.call_counts.get(key, 1)))
+                                    self.call_counts.get(key, 1), moved))
 
     def note_returned(self, func):
         for inv in func.invs:
